@@ -920,7 +920,8 @@ func TestVerifC14RawNATSChild(t *testing.T) {
 		}
 		// align walks the stored records and the expectations in step; an
 		// optional expectation that does not match the record is skipped.
-		align := func(where string, recs []rec, complete bool) (next int) {
+		isFenceRec := func(v []byte) bool { return bytes.HasPrefix(v, []byte("c14-fence-")) || string(v) == "c14-probe" }
+		align := func(where string, recs []rec, complete bool) (next int, synced bool) {
 			j := 0
 			defer func() { next = j }()
 			for i, rc := range recs {
@@ -965,7 +966,10 @@ func TestVerifC14RawNATSChild(t *testing.T) {
 						}
 						break
 					}
-					if e.Optional {
+					// An optional expectation is absent when the record at hand is
+					// (for an optional fence) anything else, (for an optional raw
+					// message) one of the harness's fences.
+					if e.Optional && (e.Fence || isFenceRec(rc.Value)) {
 						if where == "log" {
 							if e.Fence {
 								res.Counts["unacked_fence_not_stored"]++
@@ -977,13 +981,16 @@ func TestVerifC14RawNATSChild(t *testing.T) {
 					}
 					if e.Fence {
 						viol("C14:stored-order", where+": "+what, nil)
-					} else {
-						viol("C14:stored:"+kind+":"+c14CrashClass("stream", e.Data), where+": "+what, map[string]any{"item": e.Index, "payload_hex": c14Hex(e.Data), "payload_len": len(e.Data),
-							"made_by": e.Tag, "reference": e.Ref.Env.VerdictName() + "/" + e.Ref.Class, "log_offset": i})
+						return
 					}
-					return
+					// The record belongs to this raw message and is wrong; go on
+					// with the next record.
+					viol("C14:stored:"+kind+":"+c14CrashClass("stream", e.Data), where+": "+what, map[string]any{"item": e.Index, "payload_hex": c14Hex(e.Data), "payload_len": len(e.Data),
+						"made_by": e.Tag, "reference": e.Ref.Env.VerdictName() + "/" + e.Ref.Class, "log_offset": i})
+					break
 				}
 			}
+			synced = true
 			if !complete {
 				return
 			}
@@ -1011,9 +1018,9 @@ func TestVerifC14RawNATSChild(t *testing.T) {
 			// message stored there cannot be read back.  Find which input it is:
 			// the first non-optional expectation after the ones already matched.
 			unreadable = true
-			j := align("log", recs, false)
+			j, synced := align("log", recs, false)
 			var cand *c14Expect
-			for ; j < len(expect); j++ {
+			for ; synced && j < len(expect); j++ {
 				if !expect[j].Fence {
 					cand = &expect[j]
 					break
